@@ -1,20 +1,25 @@
-import Pyrtma.Proofs.Manager
+import Pyrtma.Proofs.ManagerSafe
 /-!
-# C03 — no client can take the manager down   (proof: **partial**)
+# C03 — no client can take the manager down
 
-Proved here, for the model of the *repaired* manager, for every state, frame, fuel, failing set and writable set:
-whatever one delivery does (write failures, nested removals, notices, log forwards) it only ever drops modules whose own
-socket failed and leaves every other module's record untouched (`healthy_modules_untouched`), adds nothing to any
-table (`tables_only_shrink`), writes client data to nobody but the recipients C01 names (`no_stray_data`); a frame that
-cannot be read (reset, EOF, impossible length, undecodable name) produces no delivery and no acknowledgement at all
-(`broken_frame_is_quiet`).
+Proved here, for the model of the *repaired* manager:
 
-Not proved (and therefore labelled partial): that the model never sets `crashed` (the three remaining explicit crash
-sources are `out of fuel`, a write to a socket the manager itself already closed, and an acknowledgement to a module
-that is not in the table); this needs the invariant "a closed module is in no subscriber set" carried through the nested
-recursion plus a termination measure for the fuel.  These are decided on the implementation on every run instead: any
-exception escaping `MessageManager.run()` is the observation `CRASH` (Spec clause C03), and the model reporting
-`crashed` where the implementation did not is a correspondence failure.
+* `model_never_crashes` — after ANY sequence of rounds (any accepts, any frames with any header values and payload
+  bytes, truncated or reset at any point, any writable sets, any sockets failing at any time, any clock) the model's
+  explicit crash outcome is unreachable: no write ever goes to a socket the manager has closed, nothing is removed
+  twice, and the recursion `forward → remove → CLIENT_CLOSED forward → …` always has enough fuel (`forward_safe`: the
+  measure is `2·(open modules) + [type outside the recursion guard] + [destination out of range] + 1`).  The proof
+  carries the subscription-index invariant and "a half-removed module is in no subscriber list" through the nested
+  recursion.  It was this proof attempt that exposed C03-F12 (double removal) in the real code.
+* whatever one delivery does it only ever drops modules whose own socket failed and leaves every other module's record
+  untouched (`healthy_modules_untouched`), adds nothing to any table (`tables_only_shrink`); a frame that cannot be read
+  produces no delivery and no acknowledgement (`broken_frame_is_quiet`).
+
+Partial, because “the process keeps running” is finally a statement about CPython: the model lists the raising
+primitives (see `Model/Manager.lean`) and an exception from a primitive that is not listed is outside the theorem.  That
+part is decided on the implementation on every run: any exception escaping `MessageManager.run()` on any generated history
+is the observation `CRASH` (Spec clause C03), and DEBUG-level log forwarding (not in the model) is exercised through the
+history-based Spec only (that stream found C03-F13).
 -/
 namespace Pyrtma.C03
 open Pyrtma.Mgr
@@ -75,6 +80,27 @@ theorem non_ascii_name_refused (cfg : Cfg) (s : State) (u : Nat) (h : Hdr)
     (connectModule cfg s u h).2 = false := by
   unfold connectModule
   simp [hnc, hv2, hbad]
+
+/-- the constants of the source tree meet the model's side conditions (re-checked at the generated values in `Gen`) -/
+theorem defaultCfgOK : CfgOK ({} : Cfg) :=
+  ⟨by decide, by decide, by decide, fun _ _ h => h⟩
+
+/-- **The manager model never crashes**, for every history, every iteration order of the subscriber sets that invents
+no element (`CfgOK.order`), every log level of the model, with the fuel computed by the model itself. -/
+theorem model_never_crashes (cfg : Cfg) (ok : CfgOK cfg) (hfuel : cfg.fuel = 0) (rs : List Round) :
+    (run cfg rs).crashed = none :=
+  (never_crashes ok hfuel rs).1
+
+/-- …and in every reachable state no module is left half-removed and the subscription index is consistent -/
+theorem model_always_tidy (cfg : Cfg) (ok : CfgOK cfg) (hfuel : cfg.fuel = 0) (rs : List Round) :
+    AllOpen (run cfg rs) ∧ SubInv cfg (run cfg rs) :=
+  ⟨(never_crashes ok hfuel rs).2.aopen, (never_crashes ok hfuel rs).2.good.inv⟩
+
+/-- one forward needs at most `2·(open modules) + 3` units of fuel and never crashes (any frame, any state meeting the
+invariant, any nesting of failures) -/
+theorem forward_never_crashes (cfg : Cfg) (ok : CfgOK cfg) (n : Nat) (s : State) (g : Frame) (h : Good cfg s)
+    (hn : need cfg s g ≤ n) : (forward cfg n s g).crashed = none :=
+  (forward_safe ok n s g h hn).1.ok
 
 /-! ### Non-vacuity: the header fields of a broken frame are arbitrary -/
 example : (readOne {} { mods := [{ uid := 0 }, { uid := 1 }], nextUid := 1 }
